@@ -1,6 +1,6 @@
 (* C18 — closed form of the applied-bit marking for a whole set of patches *)
 From Coq Require Import ZArith List Bool Lia.
-From FV Require Import Lib.RustInt C18.Model C18.GkProofs.
+From FV Require Import Lib.RustInt C18.Model C18.GkProofs C18.Runs C18.GkProofs2.
 Import ListNotations.
 Open Scope Z_scope.
 
